@@ -30,6 +30,7 @@ CONSTANT Known     \* keys of known findings (KNOWN_FINDINGS.txt); a listed key 
 
 KFinEh == "finalize:own-error-handler-bypassed"
 KFinLg == "finalize:own-logger-bypassed"
+KArrN == "emit_op_array:more-than-6-operands:unreported"
 
 SetOf(q) == {q[x] : x \in DOMAIN q}
 Max(a, b) == IF a > b THEN a ELSE b
@@ -300,6 +301,21 @@ EmitNext(s, ev) ==
     THEN [s EXCEPT !.em[i] = [m EXCEPT !.ns = Append(@, ev.cls)]]
     ELSE [s EXCEPT !.em[i] = m]
 
+(* ---- emit_op_array(id, operands, op_count) with op_count > 6 (Globals::kMaxOpCount): "Similar to emit(), but uses      *)
+(* array of operands instead" - an emit that is refused: error returned, handler in effect told once, one-shot state      *)
+(* consumed.                                                                                                              *)
+EmitNOk(s, ev) ==
+  LET i == ev.em
+      m == s.em[i]
+      p == ev.P.em[i] IN
+  /\ Failed(ev) /\ NoLines(ev)
+  /\ \/ /\ Told(ev, EffH(s, i))
+        /\ \A x \in DOMAIN ev.hc : ev.hc[x].o = i /\ ev.hc[x].cl
+        /\ SetOf(p.op) = {} /\ p.xr = 0 /\ p.cm = 0
+     \/ /\ KArrN \in Known
+        /\ NoHandler(ev) /\ KeptOrCleared(m, p)
+EmitNNext(s, ev) == [s EXCEPT !.em[ev.em] = FollowOneShot(@, ev.P.em[ev.em])]
+
 (* ---- comment() / commentf(): Assembler - the text goes to the logger in effect, without one it is dropped;        *)
 (* Builder / Compiler - a CommentNode is recorded.  Other emission calls (bind of a new label "L", align "A",         *)
 (* embed "E", section switch "S") likewise: Assembler - done now and logged to the logger in effect; Builder - a node. *)
@@ -388,6 +404,7 @@ CallOk(s, ev) ==
     [] ev.e = "ESetLogger" -> ESetLoggerOk(s, ev)
     [] ev.e = "ESetHandler" -> ESetHandlerOk(s, ev)
     [] ev.e = "Emit" -> EmitOk(s, ev)
+    [] ev.e = "EmitN" -> EmitNOk(s, ev)
     [] ev.e = "Misc" -> MiscOk(s, ev)
     [] ev.e = "Report" -> ReportOk(s, ev)
     [] ev.e = "Finalize" -> FinalizeOk(s, ev)
@@ -421,6 +438,7 @@ CNext(s, ev) ==
     [] ev.e = "LReset" -> LResetNext(s, ev)
     [] ev.e = "LCopy" -> LCopyNext(s, ev)
     [] ev.e = "Emit" -> EmitNext(s, ev)
+    [] ev.e = "EmitN" -> EmitNNext(s, ev)
     [] ev.e = "Misc" -> MiscNext(s, ev)
     [] ev.e = "Report" -> ReportNext(s, ev)
     [] ev.e = "Finalize" -> FinalizeNext(s, ev)
@@ -428,6 +446,9 @@ CNext(s, ev) ==
     [] OTHER -> s
 
 (* Calls that can neither fail nor tell anybody anything: setters.  (Emission events carry these fields themselves.) *)
+(* codeholder.h: "CodeHolder has an ability to attach an ErrorHandler, however, the error handler is not triggered by  *)
+(* CodeHolder itself, it's instead propagated to all emitters that attach to it." - init / reset / reinit / attach /    *)
+(* detach report by return value only and log nothing.                                                                 *)
 SilentOk(ev) == (ev.e \in Simple) => (ev.r = "Ok" /\ ev.hc = <<>> /\ ev.th = 0 /\ ev.ln[1] = 0 /\ ev.ln[2] = 0)
 HolderCallsQuiet(ev) ==
   (ev.e \in {"Init", "ResetH", "Reinit", "Attach", "Detach"}) => (ev.hc = <<>> /\ ev.th = 0 /\ ev.ln[1] = 0 /\ ev.ln[2] = 0)
